@@ -30,6 +30,12 @@ class FromCommandRule(EventRule):
                 return self.local_events[p]
         if ci.npath == 'core::iter::traits::iterator::Iterator::any':
             return 'iter.any'
+        body = I.find_body(ci) if hasattr(I, 'find_body') else None
+        if body is not None and body.kind in ('AssocFn', 'Fn') and body.body['arg_count'] == 1 \
+                and 'arguments::ArgsIter' in body.body['locals'][1]['ty'].get('s', '') \
+                and body.body['locals'][1]['ty'].get('k') == 'adt' and body.body['locals'][0]['ty'].get('k') == 'bool':
+            # a helper `fn(args: ArgsIter) -> bool`: the explicit-loop spelling of `args.any(pred)`
+            return 'iter.anyfn'
         if ci.npath == 'core::cmp::PartialEq::eq' and len(args) == 2:
             return 'str.eq'
         if ci.npath == 'core::clone::Clone::clone':
@@ -70,12 +76,88 @@ class FromCommandRule(EventRule):
             # which predicate? evaluate the closure on each Arg shape
             pred = self.any_pred(I, args[1])
             return [('any[%s]:true' % pred, TRUE), ('any[%s]:false' % pred, FALSE)]
+        if ev == 'iter.anyfn':
+            pred = self.any_pred_fn(I, I.find_body(ci))
+            return [('any[%s]:true' % pred, TRUE), ('any[%s]:false' % pred, FALSE)]
         if ev == 'clone':
             a = args[0]
             if a[0] == 'ref':
                 return [('', I.read(w, a[1]))]
             return [('', a)]
         return [('', TOP)]
+
+    def arg_tests(self, I):
+        arg = I.adts['arguments::Arg']
+        from ..absint import mk_int
+        tests = []
+        for vi, v in enumerate(arg['variants']):
+            if v['name'] == 'LongOption':
+                tests += [(('adt', 'arguments::Arg', vi, (('cstr', b'help'),)), 'Long(help)'),
+                          (('adt', 'arguments::Arg', vi, (('cstr', b'helpx'),)), 'Long(helpx)'),
+                          (('adt', 'arguments::Arg', vi, (('cstr', b'h'),)), 'Long(h)')]
+            elif v['name'] == 'ShortOption':
+                tests += [(('adt', 'arguments::Arg', vi, (const_int(ord('h')),)), 'Short(h)'),
+                          (('adt', 'arguments::Arg', vi, (const_int(ord('x')),)), 'Short(x)'),
+                          (('adt', 'arguments::Arg', vi, (const_int(ord('H')),)), 'Short(H)')]
+                for nm, lo, hi in (('Short(other 1-byte)', 0x20, 0x7E), ('Short(2-byte)', 0x80, 0x7FF)):
+                    tests.append((('adt', 'arguments::Arg', vi, (mk_int(x for x in range(lo, hi + 1) if x != ord('h')),)), nm))
+                for cp in (0x2068, 0x1F468, 0x10068, 0x100068, 0x4E2D):
+                    tests.append((('adt', 'arguments::Arg', vi, (const_int(cp),)), 'Short(U+%04X)' % cp))
+            elif v['name'] == 'Value':
+                tests += [(('adt', 'arguments::Arg', vi, (('cstr', b'help'),)), 'Value(help)'),
+                          (('adt', 'arguments::Arg', vi, (('cstr', b'-h'),)), 'Value(-h)')]
+            else:
+                tests += [(('adt', 'arguments::Arg', vi, ()), v['name'])]
+        return tests
+
+    def any_pred_fn(self, I, body):
+        """Describe a helper `fn(args: ArgsIter) -> bool` as an `any` predicate: the set S of argument shapes x with
+        f([x]) = true, provided f([]) = false and f([y, x]) = (x in S) for a y outside S and f([x, y]) = true for x in S
+        (no state is carried from one element to the next and the first hit decides); otherwise `?`."""
+        next_np = [np_ for np_, ev in self.local_events.items() if ev == 'iter.next']
+        tests = self.arg_tests(I)
+
+        class Scripted:
+            def inline_ok(self_, I2, ci, b):
+                return False
+
+            def on_call(self_, I2, w, ci, args):
+                if (ci.nresolved in next_np) or (ci.npath in next_np):
+                    st = w.st
+                    if not st:
+                        return [(w, none())]
+                    return [(w.with_st(st[1:]), some(st[0]))]
+                return None
+
+        def run_on(stream):
+            sub = Interp(I.crates, Scripted())
+            outs = set()
+            try:
+                for w2, rv in sub.run(body, [('sym', 'theiter')], tuple(stream), {}):
+                    outs |= set(rv[1]) if (rv[0] == 'int' and rv[2] is None) else {0, 1}
+            except Exception:
+                return {0, 1}
+            return outs
+        if run_on([]) != {0}:
+            return '?'
+        acc, members, outsiders = [], [], []
+        for val, name in tests:
+            o = run_on([val])
+            if o == {1}:
+                acc.append(name)
+                members.append(val)
+            elif o == {0}:
+                outsiders.append(val)
+            else:
+                acc.append(name + '?')
+        if not outsiders or not members:
+            return ",".join(acc) or '?'
+        y = outsiders[0]
+        for val, name in tests:
+            want = {1} if val in members else {0}
+            if run_on([y, val]) != want or (val in members and run_on([val, y]) != {1}):
+                return '?(not an any-predicate at %s)' % name
+        return ",".join(acc)
 
     def any_pred(self, I, clos):
         """Describe the closure given to `any` by evaluating it on every Arg shape with the relevant constants."""
@@ -130,6 +212,8 @@ class FromCommandRule(EventRule):
     def step(self, I, w, ev, outcome, ci, args):
         if ev in ('clone', 'cmd.args', 'arglist.args', 'cmd.name'):
             return [w]
+        if ev == 'iter.anyfn':
+            ev = 'iter.any'       # the helper is the explicit-loop spelling of `any`
         return [w.with_st(w.st + (ev + (':' + outcome if outcome else ''),))]
 
 
